@@ -16,8 +16,10 @@ ASSUME T_Sibling      == ThmSibling(N, B)
 
 \* accessor family: every file name of the table below a directory and at the root (index / extension / file name / rels item only;
 \* the reference theorems are about directories and stay on N)
-ExtraNames == {<<9, f>> : f \in 13..Len(Segs)} \cup {<<f>> : f \in 13..Len(Segs)} \cup {<<2, 9, f>> : f \in 13..Len(Segs)}
-NameSeq == SetToSeq(N \cup {<<>>} \cup ExtraNames)
+ExtraNames == {<<9, f>> : f \in 13..(Len(Segs) - 1)} \cup {<<f>> : f \in 13..(Len(Segs) - 1)} \cup {<<2, 9, f>> : f \in 13..(Len(Segs) - 1)}
+DirSeg == Len(Segs)
+DirNames == {<<DirSeg, 2>>, <<9, DirSeg, 2>>, <<DirSeg, DirSeg, 13>>, <<9, DirSeg>>}
+NameSeq == SetToSeq(N \cup {<<>>} \cup ExtraNames \cup DirNames)
 BaseSeq == SetToSeq(B)
 Pairs   == SetToSeq({<<b, q>> : b \in B, q \in N})
 
